@@ -2,6 +2,7 @@
 CONSTANTS
   SS = 2
   MaxW = 3
+  Progs <- MCProgs
   Configs <- CfgNoFixAll
 SPECIFICATION FairSpec
 CHECK_DEADLOCK TRUE
